@@ -1,6 +1,6 @@
 (* C18 -- shift / zoom evaluate the spline interpolant at the mapped coordinates (exact statements for order 1). *)
 Require Import QArith Qabs Qround.
-Require Import MV.Base.Prelude MV.Base.QHelp MV.Gen.Scalar_gen MV.Model.Interp MV.Proof.InterpProof.
+Require Import MV.Base.Prelude MV.Base.QHelp MV.Gen.Scalar_gen MV.Model.Interp MV.Proof.InterpProof MV.Proof.SplineProof.
 Open Scope Q_scope.
 
 (* coordinates inside the array are not touched by the border map (any mode) *)
@@ -28,3 +28,14 @@ Proof. exact zoom_shape. Qed.
 Theorem C18_zoom_maps_corners : forall n_in n_out, (1 < n_out)%Z ->
   inject_Z 0 * zoom_factor n_in n_out == 0 /\ inject_Z (n_out - 1) * zoom_factor n_in n_out == inject_Z (n_in - 1).
 Proof. exact zoom_maps_corners. Qed.
+
+(* orders 2, 3 and 4: the B-spline weights sum to one at every real coordinate *)
+Theorem C18_bspline_partition_of_unity : forall x,
+  qsum (spline_weights 2 x) == 1 /\ qsum (spline_weights 3 x) == 1 /\ qsum (spline_weights 4 x) == 1.
+Proof. exact (fun x => conj (order2_partition_of_unity x) (conj (order3_partition_of_unity x) (order4_partition_of_unity x))). Qed.
+
+(* hence a constant (already prefiltered) signal is reproduced exactly at every in-range coordinate, in every order and mode *)
+Theorem C18_constant_signal_reproduced : forall order mode dat c x,
+  (order = 1 \/ order = 2 \/ order = 3 \/ order = 4)%Z -> Forall (fun v => v == c) dat -> (1 <= Zlen dat)%Z ->
+  0 <= x -> x <= inject_Z (Zlen dat - 1) -> interp1 order mode dat x == c.
+Proof. exact constant_signal_reproduced. Qed.
